@@ -84,6 +84,16 @@ Section Assembly.
     match bc with None => true
              | Some bcl => forallb (fun b => Z.leb 0 b && Z.ltb b (asm_n g ndof)) bcl end.
 
+  (* exception class of response(): 0 = none, 2 = ValueError (scipy constructor: index/data arrays of different
+     length, index out of range), 4 = AssertionError (size of x) *)
+  Definition asm_status (g : grid) (elmat : list (list K)) (bc : option (list Z)) (x : list K) : Z :=
+    let ndof := asm_ndof g elmat in
+    let m := Z.to_nat (elemnodes g * ndof) in
+    if negb (Nat.eqb (length x) (Z.to_nat (nel g))) then 4%Z
+    else if negb (Nat.eqb (length (concat elmat)) (m * m)) then 2%Z
+    else if negb (asm_ok g elmat bc x) then 2%Z
+    else 0%Z.
+
   (* u[dofconn_e] *)
   Definition gatherZ (u : list K) (idx : list Z) : list K := map (fun d => vget u (Z.to_nat d)) idx.
 End Assembly.
